@@ -70,8 +70,6 @@ pub fn create(ctx: &Arc<RunCtx>, tls: &mut ThreadLocalState, p: usize) {
     let st = &ctx.pipes[p];
 
     let inner = st.mpsc_rx.lock().unwrap().take();
-    for _ in 0..def.preloaded { push_item(ctx, p); }
-    if def.preclosed { close_input(ctx, p); }
 
     let stream  = ScriptStream { ctx: Arc::clone(ctx), p, inner };
     let canary  = ClosureCanary { ctx: Arc::clone(ctx), p };
@@ -141,21 +139,23 @@ pub fn drop_stream(ctx: &Arc<RunCtx>, tls: &mut ThreadLocalState, p: usize) {
 
 pub fn push_item(ctx: &Arc<RunCtx>, p: usize) {
     let st = &ctx.pipes[p];
-    let k = st.pushed.fetch_add(1, Ordering::SeqCst);
-    let op = match ctx.prog.pipes[p].items.get(k) { Some(op) => *op, None => return };
-    let rec = &ctx.recs[op];
-    rec.call_tid.store(tid_hash(), ORD);
-    rec.inv.store(clock(), ORD);
-    if ctx.prog.pipes[p].mpsc {
-        if let Some(tx) = st.mpsc_tx.lock().unwrap().as_ref() { let _ = tx.unbounded_send(op); }
-    } else {
-        let waker = {
-            let mut c = st.input.lock().unwrap();
+    // index allocation and insertion are one step: the stream order is the order of the item list
+    let (waker, rec) = {
+        let mut c = st.input.lock().unwrap();
+        let k = st.pushed.fetch_add(1, Ordering::SeqCst);
+        let op = match ctx.prog.pipes[p].items.get(k) { Some(op) => *op, None => return };
+        let rec = &ctx.recs[op];
+        rec.call_tid.store(tid_hash(), ORD);
+        rec.inv.store(clock(), ORD);
+        if ctx.prog.pipes[p].mpsc {
+            if let Some(tx) = st.mpsc_tx.lock().unwrap().as_ref() { let _ = tx.unbounded_send(op); }
+            (None, rec)
+        } else {
             c.q.push_back(op);
-            c.waker.take()
-        };
-        if let Some(w) = waker { w.wake(); }
-    }
+            (c.waker.take(), rec)
+        }
+    };
+    if let Some(w) = waker { w.wake(); }
     rec.ret.store(clock(), ORD);
 }
 
